@@ -56,6 +56,7 @@ static const char *DEVNAME[D_NKINDS] = { "none", "abort", "abort-other-index", "
     "expedited-answer-to-segmented", "segmented-answer-to-expedited", "more-data-than-announced", "less-data-than-announced",
     "request-while-busy", "response-while-idle" };
 static const Dev NODEV = { D_NONE, 0, 0 };
+static const uint32_t OWN_CODES[] = { 0x05040000u, 0x05030000u, 0x05040001u, 0x06040043u, 0x06070012u, 0x06070013u };
 
 /* ------------------------------------------------------------------ user buffers: exact-size blocks GUARD|size|GUARD */
 static uint8_t *UBC[MAXSEQ][MAXSIZE + 1];
@@ -450,7 +451,10 @@ static int tr_step(Dev dv)
     for (int i = 0; i < H.t.delay; i++) { do_tick(); expect_quiet("while the server prepares its answer", "csdo-callback-count", 1); if (FAILED) return 0; }
     switch (dv.kind) {
     case D_ABORT:
-        memset(f, 0, 8); f[0] = 0x80; mux_put(f); al.end_fail = 1; al.fail_code = H.k % 3 == 0 ? 0x06020000u : H.k % 3 == 1 ? 0x06090011u : 0x08000020u; w_put32(f + 4, al.fail_code);
+        /* arg 0: an ordinary abort code; arg 1..6: the codes the client itself uses for its own verdicts (timeout, toggle, command,
+         * parameter, length) - a server may send them too, and the client must not take them for its own */
+        memset(f, 0, 8); f[0] = 0x80; mux_put(f); al.end_fail = 1;
+        al.fail_code = dv.arg > 0 ? OWN_CODES[dv.arg - 1] : H.k % 3 == 0 ? 0x06020000u : H.k % 3 == 1 ? 0x06090011u : 0x08000020u; w_put32(f + 4, al.fail_code);
         snprintf(what, sizeof what, "abort %08X", al.fail_code); break;
     case D_ABORT_IDX: case D_ABORT_SUB:
         memset(f, 0, 8); f[0] = 0x80; mux_put(f); if (dv.kind == D_ABORT_IDX) f[2] ^= 0x01; else f[3] ^= 0x40; w_put32(f + 4, 0x06040043u); al.end_fail = 1; al.ignore = 1;
@@ -487,16 +491,17 @@ static void idle_gap(int g)
 }
 
 /* deviations applicable at the current step of the (so far conforming) transfer */
+#define N_OWN_CODES 6
 static int skip_mask, only_dev;
 static int menu(Dev *out, int has_next, int mode)
 {
     int n = 0, k = H.k, S = H.t.size, K = S > 4 ? 1 + (S + 6) / 7 : 1, m = 0;
-    Dev all[24];
+    Dev all[40];
 #define ADD(kind_, arg_) do { all[m].kind = (kind_); all[m].k = k; all[m].arg = (arg_); m++; } while (0)
     if (mode == 2) {                 /* end variants of a short first transfer */
-        if (k == K - 1) { ADD(D_ABORT, 0); ADD(D_SILENT, 0); if (has_next) ADD(D_LATE_NEXT, 0); }
+        if (k == K - 1) { ADD(D_ABORT, 0); ADD(D_ABORT, 1); ADD(D_SILENT, 0); if (has_next) ADD(D_LATE_NEXT, 0); }
     } else {
-        ADD(D_ABORT, 0); ADD(D_ABORT_IDX, 0); ADD(D_ABORT_SUB, 0); ADD(D_SILENT, 0); ADD(D_LATE_IDLE, 0);
+        ADD(D_ABORT, 0); for (int a = 1; a <= N_OWN_CODES; a++) ADD(D_ABORT, a); ADD(D_ABORT_IDX, 0); ADD(D_ABORT_SUB, 0); ADD(D_SILENT, 0); ADD(D_LATE_IDLE, 0);
         if (has_next) ADD(D_LATE_NEXT, 0);
         ADD(D_BUSYREQ, 0);
         if (k >= 1) ADD(D_TOGGLE, 0);
@@ -571,7 +576,7 @@ static void enum_level(int lv, int used)
         int bad = 0;
         while (act) {
             if (L->devmode && budget > 0) {
-                Dev dl[24]; int nd = menu(dl, has_next, L->devmode);
+                Dev dl[40]; int nd = menu(dl, has_next, L->devmode);
                 if (nd) {
                     snap_save(P);
                     for (int d = 0; d < nd; d++) {
